@@ -16,12 +16,21 @@ import (
 func VerifH_C18_FailedStartup() {
 	verifrt.Unwind(100)
 	cfg := &Config{}
-	n := verifrt.Choose("good-before", 2)
-	_ = n
-	cfg.Servers = append(cfg.Servers, ServerConfig{Protocol: "no-such-protocol"})
+	switch verifrt.Choose("failing-component", 5) {
+	case 0: // a listener that cannot start (after everything else is up)
+		cfg.Servers = append(cfg.Servers, ServerConfig{Protocol: "no-such-protocol"})
+	case 1: // an upstream entry without a tag
+		cfg.Upstreams = append(cfg.Upstreams, UpstreamConfig{Addr: "udp://192.0.2.1"})
+	case 2: // a rule that names an unknown upstream
+		cfg.Rules = append(cfg.Rules, RuleConfig{Forward: "nope"})
+	case 3: // a domain set without a tag
+		cfg.DomainSets = append(cfg.DomainSets, DomainSetConfig{})
+	default: // a rule that names an unknown domain set
+		cfg.Rules = append(cfg.Rules, RuleConfig{Domain: "nope", Reject: 5})
+	}
 	r, err := run(context.Background(), cfg)
 	verifrt.Reach("returned")
-	verifrt.Assert(err != nil && r == nil, "start-up failure is reported as an error")
+	verifrt.Assert(err != nil && r == nil, "start-up failure (unknown tag / missing tag / bad listener) is reported as an error, not ignored and not a panic")
 }
 
 // VerifH_C18_InitCacheLeak: when the second cache backend fails to initialise, the first one is closed.
